@@ -309,7 +309,7 @@ func intSub(a, b Int) Object {
 		// a < IntMax + b
 		// IntMax + b can't overflow since
 		// IntMax=7FFF, b = -8000..-1, IntMax + b = -1..0x7FFE
-		if a < IntMax+b {
+		if a > IntMax+b {
 			goto overflow
 		}
 	}
@@ -333,7 +333,8 @@ func intMul(a, b Int) Object {
 		absB = -b
 	}
 	// A crude but effective test!
-	if absA <= sqrtIntMax && absB <= sqrtIntMax {
+	// (-IntMin overflows back to IntMin, so a negative "abs" means too big)
+	if absA >= 0 && absB >= 0 && absA <= sqrtIntMax && absB <= sqrtIntMax {
 		return Int(a * b)
 	}
 	aBig := big.NewInt(int64(a))
@@ -468,6 +469,10 @@ func (a Int) M__imod__(other Object) (Object, error) {
 func (a Int) divMod(b Int) (Object, Object, error) {
 	if b == 0 {
 		return nil, nil, divisionByZero
+	}
+	if a == IntMin && b == -1 {
+		// The one case which overflows: -IntMin doesn't fit in an Int
+		return (*BigInt)(big.NewInt(int64(a))).divMod((*BigInt)(big.NewInt(int64(b))))
 	}
 	// Can't overflow
 	result, remainder := Int(a/b), Int(a%b)
